@@ -6,6 +6,7 @@
 
 mod der;
 mod findings;
+mod forge;
 mod gen;
 mod keys;
 mod mk;
@@ -14,6 +15,7 @@ mod pemstrict;
 mod props;
 mod runner;
 mod spec;
+mod validate;
 mod x509;
 
 use runner::{RunCfg, Tier};
@@ -30,6 +32,7 @@ fn main() {
 	}
 	runner::install_quiet_panic_hook();
 	match args[0].as_str() {
+		"c15-child" => props::c15::child_main(),
 		"list" => {
 			for p in props::ALL {
 				println!("{p}");
